@@ -29,6 +29,40 @@ func genDataCoreList(rng *rand.Rand, tier string, emit func(string)) {
 		return out
 	}
 	for s := 0; s < sessions; s++ {
+		if (tier != "thorough" && s == 1) || (tier == "thorough" && s%500 == 1) {
+			// one session per quick run: a list beyond RangeDeleteNum (5000) elements, a trim that cuts more than 5000 elements from
+			// the head (the DeleteRange path of ltrim), then pushes, pops and reads on what is left
+			emit(fmt.Sprintf("open engine=%s policy=local now=%d sh=", []string{"mem", "pebble"}[rng.Intn(2)], dataNowFixed))
+			ts := int64(1600000000000000000) + rng.Int63n(1e9)
+			k := "default:t:big"
+			total := 0
+			for c := 0; c < 3; c++ {
+				a := h("rpush", k)
+				for j := 0; j < 1675; j++ {
+					a += h(fmt.Sprintf("e%05d", total))
+					total++
+				}
+				ts += 1000
+				emit(fmt.Sprintf("w %d 1%s", ts, a))
+			}
+			step := func(args ...string) {
+				ts += 1000
+				emit(fmt.Sprintf("w %d 1%s", ts, h(args...)))
+			}
+			read := func(args ...string) { emit("r" + h(args...)) }
+			step("ltrim", k, strconv.Itoa(5001+rng.Intn(15)), "-1") // head cut above RangeDeleteNum (5025 elements)
+			read("llen", k)
+			read("lindex", k, "0")
+			read("lrange", k, "0", "-1")
+			emit("inv")
+			step("lpush", k, "h1", "h2")
+			step("rpush", k, "t1")
+			read("lrange", k, "0", "5")
+			read("llen", k)
+			step("lpop", k)
+			emit("inv")
+			emit("dump")
+		}
 		eng := "mem"
 		if rng.Intn(5) == 0 {
 			eng = "pebble"
